@@ -22,7 +22,7 @@ use crate::mem_tools;
 use crate::{
     INTERNAL_CLIENT_ID,
     config::Config,
-    persistence::{PersistentStorageImpl, error::PersistenceResult},
+    persistence::{PersistentStorageImpl, check_registration_value, error::PersistenceResult},
     store::{PersistedStore, Store, StoreNode},
     subscribers::{EventSender, LsSubscriber, Subscriber, Subscribers},
 };
@@ -342,6 +342,13 @@ impl Worterbuch {
 
         let path: Vec<RegularKeySegment> = parse_segments(&key)?;
 
+        check_registration_value(&key, &value).map_err(|e| {
+            WorterbuchError::IoError(
+                io::Error::other(e),
+                "Failed to insert value into persistent storage".to_owned(),
+            )
+        })?;
+
         let (changed, ls_subscribers) = self.store.insert_plain(&path, value.clone(), force)?;
 
         self.persistent_storage
@@ -378,6 +385,13 @@ impl Worterbuch {
         check_for_read_only_key(&key, client_id)?;
 
         let path: Vec<RegularKeySegment> = parse_segments(&key)?;
+
+        check_registration_value(&key, &value).map_err(|e| {
+            WorterbuchError::IoError(
+                io::Error::other(e),
+                "Failed to insert value into persistent storage".to_owned(),
+            )
+        })?;
 
         let (changed, ls_subscribers) =
             self.store
